@@ -14,6 +14,8 @@
 (*   snap     [r, h, snap]           Snapshot() taken, contents read at once     *)
 (*   snapread [h, snap]              the same snapshot value read again later    *)
 (*   restore  [r, h, ok]             RestoreAt(snapshot h) and its success       *)
+(*   rebind   [r, what, name, kind]  AddFunction ("f") / AddCommand ("c") of a   *)
+(*                                   handler of behaviour class `kind`           *)
 (*   restorebad [r, ok, obs...]      RestoreAt(a snapshot naming an unknown node)*)
 (*                                                                              *)
 (* The spec never blocks: the model step is driven by the logged INPUTS, the     *)
@@ -171,6 +173,9 @@ TraceStep ==
              ELSE CASE e.ev = "next" -> StepNext(e)
                     [] e.ev = "hostset" ->
                          /\ rs' = [rs EXCEPT ![e.r] = HostSet(rs[e.r], e.var, e.val)]
+                         /\ UNCHANGED <<snaps, skip, bad, stats>>
+                    [] e.ev = "rebind" ->      \* AddFunction / AddCommand between two calls
+                         /\ rs' = [rs EXCEPT ![e.r] = Rebind(rs[e.r], e.what, e.name, e.kind)]
                          /\ UNCHANGED <<snaps, skip, bad, stats>>
                     [] e.ev = "snap" -> StepSnap(e)
                     [] e.ev = "snapread" -> StepSnapRead(e)
